@@ -106,6 +106,65 @@ def gvf(rep, g, rule, key, what, chains, valid, where):
     return n
 
 
+def generic_balance_entry(rep, g, en):
+    """an entry point outside the table that writes balances (a batch variant added later): the same obligations, phrased on the
+    amount each write itself uses.  Returns True when every obligation holds (the entry then counts as a legitimate balance writer)."""
+    effs = state_effects(g)
+    bw = [e for e in effs if e.kind in ('sw', 'supd') and key_variant(e.key)[0] == 'Balance']
+    ok_all = True
+
+    def req(ok, key, what, e, detail=None):
+        nonlocal ok_all
+        ok_all = ok_all and bool(ok)
+        rep.check(ok, 'C12.R3', '%s:generic:%s' % (en, key), what, esite(g, e) if e is not None else entry_id(g), detail)
+    moves = []
+    for e in bw:
+        addr = core(key_variant(e.key)[1][0])
+        val = e.val if e.kind == 'sw' else ('undef',)
+        if e.kind == 'supd':
+            ch = e.ctx.children.get(e.bb)
+            val = norm(g.return_term(ch)) if ch is not None else ('undef',)
+        kind = None
+        for k_, op in (('debit', 'Sub'), ('credit', 'Add')):
+            ab = checked(op, val)
+            if ab is not None and bal_of(ab[0], addr):
+                kind, amt = k_, core(ab[1])
+        if e.kind == 'sr' or kind is None:
+            req(False, 'odd-balance-write', 'balance write is checked old - amount or checked old + amount of the same address', e, e.describe()[:160])
+            continue
+        moves.append((e, kind, addr, amt))
+    auths_ = auths(g)
+    for e, kind, addr, amt in moves:
+        nonneg = guard_sel(g, lambda c_: c_[0] == 'cmp' and c_[1] == 'le' and const_int(core(c_[2])) == 0 and core(c_[3]) == amt)
+        req(bool(nonneg) and mg(g, [e.node], (), edges(nonneg))[0], 'nonneg', 'balance write must-guarded by 0 <= the amount it moves', e, fmt(amt)[:80])
+        if kind == 'debit':
+            enough = guard_sel(g, lambda c_: c_[0] == 'cmp' and c_[1] == 'le' and core(c_[2]) == amt and bal_of(c_[3], addr))
+            req(bool(enough) and mg(g, [e.node], (), edges(enough))[0], 'debit-sufficient', 'debit must-guarded by balance(holder) >= amount', e)
+            an = [a.node for a in auths_ if core(a.subject) == addr and not a.for_args]
+            req(bool(an) and mg(g, [e.node], an)[0], 'debit-auth', 'debit must-guarded by require_auth(holder)', e)
+        else:
+            paired = [x.node for x, k2, _, a2 in moves if k2 == 'debit' and a2 == amt]
+            okc = bool(paired) and mg(g, [e.node], paired)[0]
+            if not okc:
+                for a in auths_:
+                    if a.for_args:
+                        continue
+                    m = core(a.subject)
+                    member = guard_sel(g, lambda c_: c_[0] == 'present' and c_[1][0] == 'skey' and c_[1][1] == 'instance'
+                                       and key_variant(c_[1][2])[0] == 'Minter' and core(key_variant(c_[1][2])[1][0]) == m)
+                    if member and mg(g, [e.node], [a.node])[0] and mg(g, [e.node], (), edges(member))[0]:
+                        okc = True
+            req(okc, 'credit-source', 'credit is preceded by a debit of the same amount, or is a mint by an authorised current minter', e)
+        evs = [x for x in effs if x.kind == 'tokev' and any(core(a_) == addr for a_ in x.args) and any(core(a_) == amt for a_ in x.args)]
+        req(bool(evs), 'event', 'a token event names the holder and the amount of this balance change', e)
+    for variant in ('Balance', 'Allowance'):
+        for w, w2, r in stale_reads(g, variant):
+            req(False, 'stale-read', 'no balance write uses a read that precedes another balance write (aliasing)', w)
+    others = [e for e in effs if e not in bw and e.kind != 'tokev' and not (e.kind in ('sw', 'supd') and key_variant(e.key)[0] not in ('Balance', 'Allowance', 'Minter', 'Interfaces_Owner'))]
+    req(not others, 'no-other-effects', 'no other protected state change in this entry', None, '; '.join(x.describe() for x in others)[:200])
+    return ok_all and bool(moves)
+
+
 def check(P, rep):
     c = P.crates[CN]
     nbal = nall = 0
@@ -315,6 +374,7 @@ def check(P, rep):
     storage_classes(P, rep, 'C12.R3', CN, {'Balance': 'persistent', 'Allowance': 'temporary', 'Minter': 'instance'})
     require_overflow_checks(P, rep, 'C12.R2')
     # R3 who-may-write over all entries
+    generic_ok = {}
     for cn, en in P.all_entries():
         if cn != CN:
             continue
@@ -323,6 +383,10 @@ def check(P, rep):
             if e.kind in ('sw', 'sr', 'supd'):
                 v = key_variant(e.key)[0]
                 if v == 'Balance':
+                    if en not in SPEC and en not in generic_ok:
+                        generic_ok[en] = generic_balance_entry(rep, g, en)
+                    if generic_ok.get(en):
+                        continue
                     rep.check(en in ('transfer', 'transfer_from', 'burn', 'burn_from', 'mint', 'mint_from') and e.kind != 'sr', 'C12.R3',
                               '%s:balance-writer' % en, 'Balance(_) is written only by transfer/burn/mint entries', esite(g, e), e.describe()[:120])
                 if v == 'Allowance':
